@@ -5,8 +5,8 @@
    Model: Model/Life.v (gol_rule = ca_functions2d.py:843-856 literally, incl. the fall-through),
    Model/Evolve2D.v (the memoize=False engine of evolve2d, C02). *)
 From Coq Require Import ZArith List Bool.
-From CPL Require Import Model.Base Model.Rules Model.Engine Model.Evolve2D Model.Life
-                        Proofs.Evolve2DProofs Proofs.LifeProofs.
+From CPL Require Import Model.Base Model.Rules Model.Engine Model.Evolve2D Model.Memo2D Model.Life
+                        Proofs.Evolve2DProofs Proofs.LifeProofs Proofs.LifeMemoProofs.
 Import ListNotations.
 Local Open Scope Z_scope.
 
@@ -117,6 +117,54 @@ Theorem C11_blinker_period_2_fun : forall R C a b : Z, 5 <= R -> 5 <= C -> foral
   tstep R C (tstep R C (emb R C a b (of_list BH))) i j = emb R C a b (of_list BH) i j.
 Proof. exact blinker_period_2. Qed.
 
+(* ------------------------------------------------------------------ every memoize mode *)
+(* Model/Memo2D.v (C04): evolve2d_mode_fixed rule store m r ty s0 hist T is evolve2d with memoize = False
+   (m = Plain), True (m = Memo: the dict keyed by n.tobytes()) or "recursive" (m = Recursive: the quad-tree
+   engine with the byte+shape cache); arr2_of projects the returned array (or the exception). *)
+
+(* game_of_life_rule is of the pure form the C04 transparency theorems quantify over: it ignores the
+   cell identity, the step number and its state *)
+Theorem C11_gol_rule_is_pure : gol_as_rule2 = pure_rule2 gol_f.
+Proof. exact gol_as_rule2_pure. Qed.
+
+(* FOR EVERY MODE m, every R x C >= 1 x 1, every history whose last grid is a well-shaped 0/1 grid, every T:
+   the array returned by evolve2d(ca, T + 1, game_of_life_rule, memoize = m) is the history followed by
+   the 1st .. T-th iterate of the functional torus Life step. *)
+Theorem C11_life_evolve_torus_all_modes : forall (m : mode) (R C : nat) (hist : list grid) (T : nat),
+  (1 <= R)%nat -> (1 <= C)%nat ->
+  (length (last hist []) = R /\ Forall (fun row => length row = C) (last hist [])) ->
+  Forall (Forall (fun x => x = 0 \/ x = 1)) (last hist []) ->
+  arr2_of (evolve2d_mode_fixed gol_as_rule2 store_id m 1 Moore tt hist (S T)) =
+  Ok (hist ++ map (fun k => grid_of_plane R C
+                     (iter (S k) (tstep (Z.of_nat R) (Z.of_nat C)) (plane_of_grid (last hist [])))) (seq 0 T)).
+Proof. exact life_evolve_torus_all_modes. Qed.
+
+(* callable timesteps: for every mode, any stopping predicate, the array and the predicate's argument log
+   are those of memoize=False (None = out of fuel on both sides) *)
+Theorem C11_life_all_modes_callable : forall (m : mode) (P : Type) (pred : P -> list grid -> nat -> P * bool)
+    (R C : nat) (hist : list grid) (fuel : nat) (p0 : P), (1 <= R)%nat -> (1 <= C)%nat ->
+  (length (last hist []) = R /\ Forall (fun row => length row = C) (last hist [])) ->
+  dyn_arr2_of (evolve2d_mode_dynamic gol_as_rule2 store_id pred m 1 Moore fuel p0 tt hist)
+  = dyn_arr2_of (evolve2d_mode_dynamic gol_as_rule2 store_id pred Plain 1 Moore fuel p0 tt hist).
+Proof. intros m P pred R C hist fuel p0. exact (life_all_modes_plain_dynamic m pred R C hist fuel p0). Qed.
+
+(* the pattern corollaries, for every mode, every torus size with the halo, every placement *)
+Theorem C11_glider_all_modes : forall (m : mode) (R C : nat) (a b : Z), (5 <= R)%nat -> (5 <= C)%nat ->
+  arr2_of (evolve2d_mode_fixed gol_as_rule2 store_id m 1 Moore tt [pattern_grid R C a b G0] 5) =
+  Ok [pattern_grid R C a b G0; pattern_grid R C (a + 1) b G1; pattern_grid R C (a + 1) b G2;
+      pattern_grid R C (a + 1) (b + 1) G3; pattern_grid R C (a + 1) (b + 1) G0].
+Proof. exact glider_all_modes. Qed.
+
+Theorem C11_block_still_all_modes : forall (m : mode) (R C : nat) (a b : Z) (T : nat), (4 <= R)%nat -> (4 <= C)%nat ->
+  arr2_of (evolve2d_mode_fixed gol_as_rule2 store_id m 1 Moore tt [pattern_grid R C a b BLK] (S T)) =
+  Ok (repeat (pattern_grid R C a b BLK) (S T)).
+Proof. exact block_still_all_modes. Qed.
+
+Theorem C11_blinker_all_modes : forall (m : mode) (R C : nat) (a b : Z), (5 <= R)%nat -> (5 <= C)%nat ->
+  arr2_of (evolve2d_mode_fixed gol_as_rule2 store_id m 1 Moore tt [pattern_grid R C a b BH] 3) =
+  Ok [pattern_grid R C a b BH; pattern_grid R C (a - 1) (b + 1) BV; pattern_grid R C a b BH].
+Proof. exact blinker_all_modes. Qed.
+
 (* ------------------------------------------------------------------ non-vacuity *)
 
 (* the rule distinguishes: birth, survival, death by over- and under-population *)
@@ -166,6 +214,18 @@ Proof. vm_compute. reflexivity. Qed.
 Example nv_1x1 : life_evolve [[[1]]] 2 = Ok (tt, [[[1]]; [[0]]]).
 Proof. vm_compute. reflexivity. Qed.
 
+(* the three engines really run (and really differ inside): same array for the straddling glider, while the
+   rule is entered 168 times by memoize=False and far fewer times by the memoized modes *)
+Example nv_all_modes :
+  map (fun m => arr2_of (evolve2d_mode_fixed gol_as_rule2 store_id m 1 Moore tt [pattern_grid 6 7 4 5 G0] 5))
+      [Plain; Memo; Recursive]
+  = repeat (Ok [pattern_grid 6 7 4 5 G0; pattern_grid 6 7 5 5 G1; pattern_grid 6 7 5 5 G2;
+                pattern_grid 6 7 5 6 G3; pattern_grid 6 7 5 6 G0]) 3
+  /\ map (fun m => length (log2_of (evolve2d_mode_fixed (logged2 gol_as_rule2) store_id m 1 Moore (tt, [])
+                                     [pattern_grid 6 7 4 5 G0] 5))) [Plain; Memo; Recursive]
+     = [168; 46; 46]%nat.
+Proof. split; vm_compute; reflexivity. Qed.
+
 Print Assumptions C11_gol_is_b3s23.
 Print Assumptions C11_gol_blocks512.
 Print Assumptions C11_gol_never_falls_through.
@@ -180,3 +240,9 @@ Print Assumptions C11_block_still.
 Print Assumptions C11_block_still_fun.
 Print Assumptions C11_blinker_period_2.
 Print Assumptions C11_blinker_period_2_fun.
+Print Assumptions C11_gol_rule_is_pure.
+Print Assumptions C11_life_evolve_torus_all_modes.
+Print Assumptions C11_life_all_modes_callable.
+Print Assumptions C11_glider_all_modes.
+Print Assumptions C11_block_still_all_modes.
+Print Assumptions C11_blinker_all_modes.
